@@ -135,8 +135,8 @@ def holds(st, F, V):
         vals = [(V[n] % (1 << F[n][0])) for n in st[1]]
         # pairwise != under R-EXPR: operands of one type here, so pattern inequality
         return len(set(vals)) == len(vals)
-    if k == "soft":
-        return True
+    if k in ("soft", "order"):
+        return True          # ordering directives do not change the solution set
     raise ValueError(k)
 
 
